@@ -269,6 +269,16 @@ def run_job(job, scratch, cover_pass=False):
         return res
     cur = gb
     step = 0
+    # every function named in a cut or in a contract must exist in the binary: goto-instrument silently ignores unknown names,
+    # and a renamed function would otherwise turn into a spurious failure instead of an extraction break
+    needed = [x for rcall in job.replace_calls for x in rcall.split(":")] + list(job.remove_bodies) + ([job.enforce] if job.enforce else []) + list(job.replace)
+    if needed:
+        rc, out, _ = run(["cbmc", "--list-goto-functions", gb], wd, 120)
+        have = set(l.split(" ")[0] for l in out.splitlines())
+        missing = [x for x in needed if x not in have and x not in ("strcmp", "strlen", "memcpy", "malloc", "calloc", "free", "realloc")]
+        if missing:
+            res.error = "extraction-break: function(s) %s not found in the translation unit (renamed or removed?)" % ", ".join(missing)
+            return res
     gi = []
     if job.remove_bodies:
         for f in job.remove_bodies:
